@@ -384,11 +384,17 @@ func run(s Script, v *vt.V) {
 	case "DeleteTag":
 		ok = step("DeleteTag", func() error { return c.DeleteTag(ctx, "foo", "latest") })
 	case "Tags":
-		ok = step("Tags drain", func() error { _, err := ociregistry.All(c.Tags(ctx, "foo", "")); return err })
+		seq := c.Tags(ctx, "foo", "")
+		ok = step("Tags drain", func() error { _, err := ociregistry.All(seq); return err })
+		ok = ok && step("Tags drain, the same sequence run again", func() error { _, err := ociregistry.All(seq); return err })
 	case "Repositories":
-		ok = step("Repositories drain", func() error { _, err := ociregistry.All(c.Repositories(ctx, "a")); return err })
+		seq := c.Repositories(ctx, "a")
+		ok = step("Repositories drain", func() error { _, err := ociregistry.All(seq); return err })
+		ok = ok && step("Repositories drain, the same sequence run again", func() error { _, err := ociregistry.All(seq); return err })
 	case "Referrers":
-		ok = step("Referrers drain", func() error { _, err := ociregistry.All(c.Referrers(ctx, "foo", sampleDg, "")); return err })
+		seq := c.Referrers(ctx, "foo", sampleDg, "")
+		ok = step("Referrers drain", func() error { _, err := ociregistry.All(seq); return err })
+		ok = ok && step("Referrers drain, the same sequence run again", func() error { _, err := ociregistry.All(seq); return err })
 	case "Chunked", "ResumeExplicit", "ResumeQuery":
 		var w ociregistry.BlobWriter
 		ok = step("open writer", func() error {
@@ -580,7 +586,7 @@ func genScript(t *rapid.T) Script {
 var prop = &vt.Prop[Script]{
 	ID:   "C18",
 	Name: "ClientAnyResponse",
-	Rule: "client operation = each client method (reads drained to EOF, listings drained, chunked writer: open / Write small / Write 100 KiB / Size / Close / Commit / Size+ID / Commit again / Write / Cancel / Close, resume with explicit offset and with -1) x ListPageSize in {-5,-1,0,1,2,1000} x chunk hint x {plain transport, ociauth's standard transport whose first exchange is a 401 Bearer challenge with an error body and a token request to the registry's own host, answered with a proper token document or with null, {}, [], wrongly typed, overflowing, empty, truncated or huge bodies} x a script of 0-8 responses, each the expected answer distorted in one dimension: status from every class (an unsolicited 101 protocol switch, whose body is the silent connection itself; 2xx the operation does not expect, 3xx without Location, 4xx, 5xx), one of Location / Range / Content-Range / Docker-Content-Digest / Link (incl. well-formed targets followed by parameters of every shape) / Content-Type / OCI-Chunk-Min-Length absent / empty / malformed / contradictory / huge, body empty / truncated / wrong-shape / garbage / null / 2 MiB, Content-Length unknown / too long / too short; served by a scripted RoundTripper that sets Response.Request and fails every request after the script is exhausted; oracle = no panic (also none when a returned error is printed, unwrapped and asked for its code, detail, status and response body), every individual API call returns within 10 s, issues at most (answers still unconsumed) + 1 requests, and never sends a request while it holds the unread body of an earlier response of the same call (that hangs under a one-connection-per-host transport), and when it has returned and its readers are closed no response body is left unclosed and unread; non-trivial = a distorted response was actually consumed; distinct = (operation, page size, consumed fault vector)",
+	Rule: "client operation = each client method (reads drained to EOF, listings drained and the same sequence drained a second time, chunked writer: open / Write small / Write 100 KiB / Size / Close / Commit / Size+ID / Commit again / Write / Cancel / Close, resume with explicit offset and with -1) x ListPageSize in {-5,-1,0,1,2,1000} x chunk hint x {plain transport, ociauth's standard transport whose first exchange is a 401 Bearer challenge with an error body and a token request to the registry's own host, answered with a proper token document or with null, {}, [], wrongly typed, overflowing, empty, truncated or huge bodies} x a script of 0-8 responses, each the expected answer distorted in one dimension: status from every class (an unsolicited 101 protocol switch, whose body is the silent connection itself; 2xx the operation does not expect, 3xx without Location, 4xx, 5xx), one of Location / Range / Content-Range / Docker-Content-Digest / Link (incl. well-formed targets followed by parameters of every shape) / Content-Type / OCI-Chunk-Min-Length absent / empty / malformed / contradictory / huge, body empty / truncated / wrong-shape / garbage / null / 2 MiB, Content-Length unknown / too long / too short; served by a scripted RoundTripper that sets Response.Request and fails every request after the script is exhausted; oracle = no panic (also none when a returned error is printed, unwrapped and asked for its code, detail, status and response body), every individual API call returns within 10 s, issues at most (answers still unconsumed) + 1 requests, and never sends a request while it holds the unread body of an earlier response of the same call (that hangs under a one-connection-per-host transport), and when it has returned and its readers are closed no response body is left unclosed and unread; non-trivial = a distorted response was actually consumed; distinct = (operation, page size, consumed fault vector)",
 	Gen:  genScript,
 	Run:  run,
 }
